@@ -129,6 +129,15 @@ impl ContinuityStreamCache {
             let _ = fs::create_dir_all(parent);
         }
 
+        // Caches may be deleted or rotated at any time, also under a running authority. A member
+        // that is gone is never re-created from this frame alone (it would be served as if it held
+        // the whole thread): without the full sidecar the family is dropped and rebuilt from the
+        // truth log on demand; a missing derived member is rebuilt from its parent below.
+        if event.seq > 0 && !is_non_empty_file(&path) {
+            self.remove_family_best_effort(continuity_id);
+            return;
+        }
+
         #[cfg(rip_verif)]
         rip_kernel::verif::point("cache.append.open");
         let Ok(file) = OpenOptions::new().create(true).append(true).open(&path) else {
@@ -321,6 +330,25 @@ impl ContinuityStreamCache {
             let _ = fs::create_dir_all(parent);
         }
 
+        let ord_path = self.messages_runs_message_ordinal_index_path_v1(continuity_id);
+        if !is_non_empty_file(&path) {
+            // Missing (first message of the thread, or lost): build it from the full sidecar,
+            // which already holds this frame.
+            let _ = fs::remove_file(&path);
+            let full_path = self.path_for(continuity_id);
+            let built = self
+                .rebuild_messages_runs_from_full_sidecar_best_effort_v1(
+                    continuity_id,
+                    &full_path,
+                    &path,
+                )
+                .is_ok();
+            if !built || rebuild_message_ordinal_index_from_sidecar_v1(&ord_path, continuity_id, &path).is_err() {
+                let _ = fs::remove_file(&ord_path);
+            }
+            return;
+        }
+
         let Ok(file) = OpenOptions::new().create(true).append(true).open(&path) else {
             return;
         };
@@ -356,8 +384,11 @@ impl ContinuityStreamCache {
         if matches!(&event.kind, EventKind::ContinuityMessageAppended { .. }) {
             let msg_path = self.messages_runs_message_index_path_v1(continuity_id);
             insert_message_best_effort_v1(&msg_path, &path, &event.id, event.seq, offset);
-            let ord_path = self.messages_runs_message_ordinal_index_path_v1(continuity_id);
-            append_message_record_best_effort_v1(&ord_path, event.seq, &event.id);
+            if is_non_empty_file(&ord_path) {
+                append_message_record_best_effort_v1(&ord_path, event.seq, &event.id);
+            } else if rebuild_message_ordinal_index_from_sidecar_v1(&ord_path, continuity_id, &path).is_err() {
+                let _ = fs::remove_file(&ord_path);
+            }
         }
     }
 
@@ -378,6 +409,28 @@ impl ContinuityStreamCache {
             let _ = fs::create_dir_all(parent);
         }
 
+        let idx_path = self.compaction_checkpoints_index_path_for_v1(continuity_id);
+        if !is_non_empty_file(&path) {
+            // Missing (first checkpoint of the thread, or lost): build it from the full sidecar,
+            // which already holds this frame.
+            let _ = fs::remove_file(&path);
+            let full_path = self.path_for(continuity_id);
+            let built = self
+                .rebuild_compaction_checkpoints_from_full_sidecar_best_effort_v1(
+                    continuity_id,
+                    &full_path,
+                    &path,
+                )
+                .is_ok();
+            if !built
+                || rebuild_compaction_checkpoint_index_from_sidecar_v1(&path, &idx_path, continuity_id)
+                    .is_err()
+            {
+                let _ = fs::remove_file(&idx_path);
+            }
+            return;
+        }
+
         let Ok(file) = OpenOptions::new().create(true).append(true).open(&path) else {
             return;
         };
@@ -394,8 +447,13 @@ impl ContinuityStreamCache {
         }
         let _ = writer.flush();
 
-        if let Some(entry) = CompactionCheckpointIndexEntryV1::from_event(event) {
-            let idx_path = self.compaction_checkpoints_index_path_for_v1(continuity_id);
+        if !is_non_empty_file(&idx_path) {
+            if rebuild_compaction_checkpoint_index_from_sidecar_v1(&path, &idx_path, continuity_id)
+                .is_err()
+            {
+                let _ = fs::remove_file(&idx_path);
+            }
+        } else if let Some(entry) = CompactionCheckpointIndexEntryV1::from_event(event) {
             append_compaction_checkpoint_index_entry_best_effort_v1(&idx_path, &entry);
         }
     }
@@ -1725,6 +1783,30 @@ impl ContinuityStreamCache {
             from_message_id,
         })
     }
+}
+
+fn is_non_empty_file(path: &Path) -> bool {
+    fs::metadata(path).map(|meta| meta.is_file() && meta.len() > 0).unwrap_or(false)
+}
+
+/// Ordinal index from the messages+runs sidecar (cache-only; every line is a full frame).
+fn rebuild_message_ordinal_index_from_sidecar_v1(
+    ord_path: &Path,
+    continuity_id: &str,
+    mr_sidecar_path: &Path,
+) -> io::Result<()> {
+    let reader = BufReader::new(File::open(mr_sidecar_path)?);
+    let mut events: Vec<Event> = Vec::new();
+    for line in reader.lines() {
+        let line = line?;
+        if line.is_empty() {
+            continue;
+        }
+        let event: Event = serde_json::from_str(&line)
+            .map_err(|err| io::Error::new(io::ErrorKind::InvalidData, err))?;
+        events.push(event);
+    }
+    rebuild_message_ordinal_index_from_events_v1(ord_path, continuity_id, &events)
 }
 
 fn rebuild_messages_runs_seek_index_best_effort_v1(
